@@ -713,7 +713,7 @@ theorem nz_pos (n : Option Nat) : 1 ≤ nz n := by
   | none => decide
   | some k => cases k <;> simp [nz]
 
-theorem abs_insertLines (ss : SScreen) (n : Option Nat) (h : Inv (abs ss)) :
+theorem abs_insertLines (ss : SScreen) (n : Option Nat) :
     abs (insertLines ss n) = Memterm.insertLines (abs ss) n := by
   unfold insertLines Memterm.insertLines
   have e1 : topMargin (abs ss) = topMargin ss.s := rfl
@@ -848,7 +848,7 @@ theorem dl_loop (n bottom cy : Nat) (b0 : Buf) (hn : 1 ≤ n) :
     rw [e] at this
     exact this
 
-theorem abs_deleteLines (ss : SScreen) (n : Option Nat) (h : Inv (abs ss)) :
+theorem abs_deleteLines (ss : SScreen) (n : Option Nat) :
     abs (deleteLines ss n) = Memterm.deleteLines (abs ss) n := by
   unfold deleteLines Memterm.deleteLines
   have e1 : topMargin (abs ss) = topMargin ss.s := rfl
